@@ -3,11 +3,11 @@ CONSTANTS
   Mailboxes = {"A", "B"}
   Flags <- OnlyDeleted
   MaxMsgs = 2
-  MaxUid = 3
+  MaxUid = 2
   MaxQueue = 3
   Kinds <- KIdle
-  SeqSets <- Sets3
-  UidSets <- Sets3
+  SeqSets <- Sets2
+  UidSets <- Sets2
   UidForms <- SeqOnly
   AppendFlags <- PlainOrDeleted
   AppendBoxes <- OnlyA
